@@ -3531,6 +3531,7 @@ async def _helper_rename_inbox(inbox: Mailbox, new_name: str) -> None:
         new_mbox.uids = uids
         new_mbox.sequences = sequences
         new_mbox.msg_keys = new_msg_keys
+        new_mbox._rebuild_index_dicts()
         new_mbox.optional_resync = False
         new_mbox.set_sequences_in_folder(sequences)
         await new_mbox.commit_to_db()
@@ -3549,5 +3550,6 @@ async def _helper_rename_inbox(inbox: Mailbox, new_name: str) -> None:
         inbox.msg_keys = []
         inbox.num_msgs = 0
         inbox.uids = []
+        inbox._rebuild_index_dicts()
         inbox.set_sequences_in_folder(inbox.sequences)
         await inbox.commit_to_db()
